@@ -113,6 +113,8 @@ ND_CALLS = {
     "os.getenv", "os.urandom", "glob.glob", "time.time", "time.monotonic", "time.strftime", "time.localtime", "random.random",
     "random.choice", "random.shuffle", "random.randint", "uuid.uuid4", "uuid.uuid1", "datetime.now", "datetime.datetime.now",
     "datetime.date.today", "platform.node", "socket.gethostname", "tempfile.mkdtemp", "tempfile.mktemp",
+    # questions about a possibly relative path are answered relative to the working directory
+    "os.path.isfile", "os.path.exists", "os.path.isdir", "os.path.lexists", "os.access", "os.stat", "os.path.getsize", "os.path.getmtime",
 }
 ND_ALLOWED = {
     ("safe_hash.__hash__", "hash"): "identity hash, never iterated or emitted",
@@ -213,6 +215,31 @@ def a10(repo: Repo) -> RuleResult:
                 if nm in mod.assigns and Typer(m, fi, fi.cls).local(nm) is None and isinstance(mod.assigns[nm], (ast.List, ast.Dict, ast.Set, ast.Call)):
                     res.bad(Finding("A10", fi.rel, n.lineno, qualname(n), src_of(n), "a module-level container is mutated at run time", tag=f"{qualname(n)}:module-container"))
     res.inst(part="sources", functions=len(funcs), nd_calls=n_calls)
+    # files written by the compiler start empty: what an earlier run left in the output directory must not survive
+    n_open = 0
+    for fi in funcs:
+        for n in ast.walk(fi.node):
+            if not isinstance(n, ast.Call):
+                continue
+            fname_ = src_of(n.func)
+            if fname_ in ("open", "io.open", "codecs.open"):
+                mode = n.args[1] if len(n.args) > 1 else next((k_.value for k_ in n.keywords if k_.arg == "mode"), None)
+                if mode is None:
+                    continue  # reading
+                n_open += 1
+                mv = mode.value if isinstance(mode, ast.Constant) and isinstance(mode.value, str) else None
+                if mv is None:
+                    res.unsure(f"A10: {qualname(n)}: open() with a computed mode `{src_of(mode)}`")
+                elif ("a" in mv or "+" in mv or "x" in mv) and "w" not in mv:
+                    res.bad(Finding("A10", fi.rel, n.lineno, qualname(n), src_of(n), f"a file is opened for writing with mode {mv!r}, which keeps (or depends on) what is already there: the bytes on disk depend on earlier runs", witness="compile with -O, then without, into the same directory", tag=f"{qualname(n)}:open-mode"))
+            elif fname_ == "os.open":
+                flags = n.args[1] if len(n.args) > 1 else next((k_.value for k_ in n.keywords if k_.arg == "flags"), None)
+                names_ = {src_of(x) for x in ast.walk(flags)} if flags is not None else set()
+                if names_ & {"os.O_WRONLY", "os.O_RDWR"}:
+                    n_open += 1
+                    if "os.O_TRUNC" not in names_ and "os.O_EXCL" not in names_:
+                        res.bad(Finding("A10", fi.rel, n.lineno, qualname(n), src_of(n), "a file is opened for writing without O_TRUNC: the tail of a longer file left by an earlier run survives, the bytes on disk depend on the history of the output directory", witness="compile with -O --endian both, then with --endian little, into the same directory", tag=f"{qualname(n)}:no-trunc"))
+    res.inst(part="sources", files_opened_for_writing=n_open)
 
     def _mutable_literal(v: Optional[ast.AST]) -> bool:
         if isinstance(v, (ast.List, ast.Dict, ast.Set, ast.ListComp, ast.DictComp, ast.SetComp)):
